@@ -1183,9 +1183,206 @@ def rule_u16(F):
     return r
 
 
+def block_typestate(F, files, prefix, builder="Lowerer", terminators=("Jump", "Switch", "Return"), instr_adt="Instruction", input_instr="mir::Instruction"):
+    """Typestate of the block under construction in an IR builder (`emit` pushes onto the last block; a push onto `blocks` opens
+    one): after a terminator has been emitted the block is CLOSED, and nothing may be emitted before the next block is opened.  A
+    freshly made builder has no block at all (same state).  Interprocedural may-analysis over the MIR of the builder's methods:
+    every method that works on `&mut builder` gets a summary (may it emit when entered with a closed block; which states it can
+    leave behind for each entry state), computed to a fixpoint; the primitive `emit` is read at its call sites (the variant of the
+    instruction it is handed).  Functions without a builder of their own (`fn item(ctx, ..)`) make one: they are examined from the
+    point where they make it.  Returns (functions examined, [(body, line, callee, what)], summaries)."""
+    bodies = [b for b in F.bodies_in(files) if b.mir and "::tests::" not in b.path and b.path.startswith(prefix)]
+    by = {b.path: b for b in bodies}
+    prim_emit = {p_ for p_ in by if hir.last(p_) == "emit" and "{closure" not in p_}
+    if not prim_emit:
+        return None
+
+    def is_method(b):
+        ls = b.mir["locals"]
+        return b.mir.get("argc", 0) >= 1 and builder in str(ls[1].get("ty") or "") and str(ls[1].get("ty") or "").startswith("&")
+    summ = {p_: {"bad": False, "exit": {"O": set(), "C": set()}, "emits": False} for p_, b in by.items() if p_ not in prim_emit and (is_method(b) or "{closure" in p_)}
+    statics = [b for p_, b in by.items() if p_ not in summ and p_ not in prim_emit]
+    # the translator of ONE instruction of the input IR (`fn instruction(&mut self, i: mir::Instruction)`): the order of the input
+    # block is not this builder's doing - a well-formed input block has its terminator last, which the same typestate establishes
+    # for the builder that made the input; its calls are taken to happen in an open block, and said so in the evidence
+    translators = {p_ for p_ in summ if input_instr and any(str(l_.get("ty") or "").endswith(input_instr) for l_ in by[p_].mir["locals"][2:1 + by[p_].mir.get("argc", 0)])}
+    defs_of = {}
+
+    def D(b):
+        return defs_of.setdefault(b.path, mir.Defs(b))
+
+    def variant_of(b, op):
+        """the Instruction variant handed to emit, when it is built in place"""
+        if not mir.is_place_op(op):
+            return None
+        l = op[1][0]
+        for _ in range(6):
+            ds = D(b).whole_defs(l)
+            if len(ds) != 1 or ds[0][2] != "assign":
+                return None
+            rv = ds[0][3]["rv"]
+            if rv["k"] == "agg" and hir.last(rv.get("adt") or "") == instr_adt:
+                return rv.get("variant")
+            if rv["k"] == "use" and mir.is_place_op(rv["o"]) and len(rv["o"][1]) == 1:
+                l = rv["o"][1][0]
+                continue
+            return None
+        return None
+
+    def closures_given(b, t):
+        out = []
+        for a in t["args"]:
+            if mir.is_place_op(a):
+                for x in D(b).whole_defs(a[1][0]):
+                    if x[2] == "assign" and x[3]["rv"]["k"] == "agg" and x[3]["rv"].get("ak") == "closure" and (x[3]["rv"].get("def") or "") in summ:
+                        out.append(x[3]["rv"]["def"])
+        return out
+
+    def steps_of(b, blk):
+        t = blk["term"]
+        steps = []
+        for st in blk["stmts"]:
+            if st["k"] == "assign" and st["rv"]["k"] == "agg" and hir.last(st["rv"].get("adt") or "") == builder:
+                steps.append(("fresh", None, st.get("line")))
+        if t["k"] != "call":
+            return steps
+        c = mir.callee(t) or ""
+        cd = mir.callee_def(t) or ""
+        if c in prim_emit:
+            steps.append(("emit", variant_of(b, t["args"][1]) if len(t["args"]) > 1 else None, t.get("line")))
+        elif hir.last(cd) == "push" and "Vec" in cd and t["args"] and mir.is_place_op(t["args"][0]):
+            k = mir.origin_key(b, D(b), t["args"][0][1])
+            if k.endswith(".blocks") or ".blocks." in k or k.endswith("blocks"):
+                steps.append(("open", None, t.get("line")))
+            elif "instructions" in k:
+                steps.append(("emit", variant_of(b, t["args"][1]) if len(t["args"]) > 1 else None, t.get("line")))
+        elif c in summ and c in translators:
+            steps.append(("translate", c, t.get("line")))
+        elif c in summ:
+            steps.append(("call", c, t.get("line")))
+        elif c in by and builder in str(by[c].mir["locals"][0].get("ty") or ""):
+            steps.append(("fresh", None, t.get("line")))      # a constructor of the builder
+        for cl in closures_given(b, t):
+            steps.append(("call", cl, t.get("line")))
+        return steps
+
+    def run(b, entry, report=None):
+        """(may emit while closed, exit states, emits at all) of body b entered in state `entry`"""
+        nb = len(b.blocks)
+        sin = [set() for _ in range(nb)]
+        sin[0] = {entry}
+        work = [0]
+        bad = False
+        emits = False
+        fin = set()
+        while work:
+            bi = work.pop()
+            blk = b.blocks[bi]
+            if blk.get("cleanup"):
+                continue
+            out = set(sin[bi])
+            for kind, x, ln in steps_of(b, blk):
+                if kind == "emit":
+                    emits = True
+                    if "C" in out:
+                        bad = True
+                        if report is not None:
+                            report.append((b, ln, "emit", "Instruction::%s" % (x or "?")))
+                    out = {"C"} if x in terminators else {"O"}
+                elif kind == "open":
+                    out = {"O"}
+                elif kind == "fresh":
+                    out = {"C"}
+                elif kind == "translate":
+                    emits = emits or summ[x]["emits"]
+                    out = set(summ[x]["exit"]["O"]) or {"O"}
+                else:
+                    sm = summ[x]
+                    emits = emits or sm["emits"]
+                    if "C" in out and sm["bad"]:
+                        bad = True
+                        if report is not None:
+                            report.append((b, ln, hir.last(x), "which emits before it opens a block"))
+                    nxt = set()
+                    for s_ in out:
+                        nxt |= (sm["exit"][s_] or {s_})
+                    out = nxt
+            if blk["term"]["k"] == "return":
+                fin |= out
+            for sx_ in mir.succs(blk):
+                if b.blocks[sx_].get("cleanup"):
+                    continue
+                if not out <= sin[sx_]:
+                    sin[sx_] |= out
+                    work.append(sx_)
+        return bad, fin, emits
+
+    changed = True
+    rounds = 0
+    while changed and rounds < 30:
+        changed = False
+        rounds += 1
+        for p_, sm in summ.items():
+            b = by[p_]
+            for entry in ("O", "C"):
+                bad, fin, emits = run(b, entry)
+                if entry == "C" and bad and not sm["bad"]:
+                    sm["bad"] = True
+                    changed = True
+                if not fin <= sm["exit"][entry]:
+                    sm["exit"][entry] |= fin
+                    changed = True
+                if emits and not sm["emits"]:
+                    sm["emits"] = True
+                    changed = True
+    reports = []
+    examined = 0
+    for p_ in sorted(summ):
+        if summ[p_]["emits"]:
+            examined += 1
+            run(by[p_], "O", reports)
+    for b in statics:
+        # examined from where they make their builder; before that there is nothing to emit into, which `fresh` says as well
+        bad, fin, emits = run(b, "O", reports)
+        if emits:
+            examined += 1
+    seen = set()
+    uniq = []
+    for b, ln, callee, what in reports:
+        k = (b.path, ln, callee)
+        if k not in seen:
+            seen.add(k)
+            uniq.append((b, ln, callee, what))
+    return examined, uniq, summ, sorted(translators)
+
+
+def rule_u17(F):
+    """No instruction is emitted into a block that already has its terminator.  The LIR builder pushes every instruction onto the
+    last block; the code generator hands each block to Cranelift, which panics ('you cannot add an instruction to a block already
+    filled') when something follows a jump, switch or return - and a label that a switch names but no `new_block` ever opened is
+    a missing block.  So between a terminator and the next `emit` there is a `new_block` on every path, across helpers
+    (`generate_eq_body_enum` returned `true` for a variant with an uninhabited field BEFORE it opened the variant's block:
+    `None == None` aborted the compiler)."""
+    r = RuleResult("C06.U17", "LIR builder typestate: nothing is emitted behind a terminator (jump / switch / return) before the next new_block, on every path and through helpers", floor=20)
+    res = block_typestate(F, ["src/lir/lower.rs", "src/lir/lower/clones.rs", "src/lir/lower/drops.rs", "src/lir/lower/eq.rs"], "lir::lower")
+    if res is None:
+        r.missing("Lowerer::emit / Lowerer::new_block in src/lir/lower.rs")
+        return r
+    sites, reports, summ, translators = res
+    r.note("taken to be called in an open block (translators of one input instruction; the input block is well-formed): %s" % ", ".join(translators))
+    for p_ in sorted(summ):
+        if summ[p_]["emits"]:
+            r.inst(p_, {"fn": p_, "may_emit_before_opening_a_block": summ[p_]["bad"], "leaves_block": {k: sorted(v) for k, v in summ[p_]["exit"].items()}})
+    for b, ln, callee, what in reports:
+        r.bad(b.path, "emission behind a terminator (%s)" % callee, relfile(b.file), ln or b.line,
+              "%s can call %s (%s) while the block under construction already ends in a jump, switch or return and no new_block has been opened since: the instruction lands behind "
+              "the terminator (Cranelift panics on it) and the block the terminator names may never be created" % (hir.last(b.path), callee, what))
+    return r
+
+
 def rules(ctx):
     F = ctx["F"]
-    return [rule_u1(F), rule_u2(F), rule_u3(F), rule_u3b(F), rule_u4(F), rule_u5(F), rule_u6(F), rule_u7(F), rule_u8(F), rule_u9(F), rule_u10(F), rule_u11(F), rule_u12(F), rule_u13(F), rule_u14(F), rule_u15(F), rule_u16(F)]
+    return [rule_u1(F), rule_u2(F), rule_u3(F), rule_u3b(F), rule_u4(F), rule_u5(F), rule_u6(F), rule_u7(F), rule_u8(F), rule_u9(F), rule_u10(F), rule_u11(F), rule_u12(F), rule_u13(F), rule_u14(F), rule_u15(F), rule_u16(F), rule_u17(F)]
 
 
 def canary(C):
